@@ -12,6 +12,8 @@ let z_of_int (n : int) : z = if n = 0 then Z0 else if n > 0 then Zpos (pos_of_in
 let n_of_int (n : int) : n = if n = 0 then N0 else Npos (pos_of_int n)
 let zint x = z_of_int (int_ x)
 
+let debug = try Sys.getenv "C10_DEBUG" <> "" with Not_found -> false
+
 (* ---- values *)
 let flavor_of = function A "cal" -> Cal | A "card" -> Card | _ -> raise (Parse_error "flavor")
 
@@ -56,17 +58,43 @@ let opt f = function A "n" -> None | x -> Some (f x)
 let rec int_of_pos = function XH -> 1 | XO p -> 2 * int_of_pos p | XI p -> 2 * int_of_pos p + 1
 let int_of_z = function Z0 -> 0 | Zpos p -> int_of_pos p | Zneg p -> - (int_of_pos p)
 
+let pairs name rows key value =
+  List.map (function L [k; v] -> (key k, value v) | _ -> raise (Parse_error ("table " ^ name))) rows
+
+(* the codecs of a case (tables); their comparison with C16's models (extracted tables_agree)
+   is accumulated per case and enters the verdict through the extracted with_tables *)
+let tables_ok = ref true
 let codecs_of = function
-  | L [A ("tab" | "htab"); L (A "href_enc" :: he); L (A "href_dec" :: hd); L (A "etag_enc" :: ee); L (A "etag_dec" :: ed);
+  | L [A (("tab" | "htab") as head); L (A "print_hi" :: ph);
+       L (A "href_enc" :: he); L (A "href_dec" :: hd); L (A "etag_enc" :: ee); L (A "etag_dec" :: ed);
        L (A "time_enc" :: te); L (A "time_dec" :: td); L (A "pay_enc" :: pe); L (A "pay_dec" :: pd); L (A "status_text" :: st)] ->
     let s = string_of_chars in
     let pay_enc = table "pay_enc" pe str (opt str) s and pay_dec = table "pay_dec" pd str (opt str) s in
-    { href_enc = table "href_enc" he str str s; href_dec = table "href_dec" hd str (opt str) s;
-      etag_enc = table "etag_enc" ee str str s; etag_dec = table "etag_dec" ed str (opt str) s;
-      time_enc = table "time_enc" te int_ (fun x -> str x) string_of_int |> (fun f z -> f (int_of_z z));
-      time_dec = table "time_dec" td str (opt zint) s;
-      pay_enc = (fun _ k -> pay_enc k); pay_dec = (fun _ k -> pay_dec k);
-      status_text = table "status_text" st int_ (fun x -> str x) string_of_int |> (fun f z -> f (int_of_z z)) }
+    let cd =
+      { href_enc = table "href_enc" he str str s; href_dec = table "href_dec" hd str (opt str) s;
+        etag_enc = table "etag_enc" ee str str s; etag_dec = table "etag_dec" ed str (opt str) s;
+        time_enc = table "time_enc" te int_ (fun x -> str x) string_of_int |> (fun f z -> f (int_of_z z));
+        time_dec = table "time_dec" td str (opt zint) s;
+        pay_enc = (fun _ k -> pay_enc k); pay_dec = (fun _ k -> pay_dec k);
+        status_text = table "status_text" st int_ (fun x -> str x) string_of_int |> (fun f z -> f (int_of_z z)) } in
+    let tabs =
+      { t_std = (head = "htab"); t_print_hi = List.map (fun x -> n_of_int (int_ x)) ph;
+        t_href_enc = pairs "href_enc" he str str; t_href_dec = pairs "href_dec" hd str (opt str);
+        t_etag_enc = pairs "etag_enc" ee str str; t_etag_dec = pairs "etag_dec" ed str (opt str);
+        t_time_enc = pairs "time_enc" te zint str; t_time_dec = pairs "time_dec" td str (opt zint) } in
+    let ok = tables_agree tabs in
+    if not ok then begin
+      bump "codec_model_mismatch";
+      if debug then begin
+        let chk name b = if not b then Printf.printf "DEBUG codec tables: %s differs from C16's model\n" name in
+        chk "href_enc" (href_enc_agrees tabs.t_href_enc); chk "href_dec" (href_dec_agrees tabs.t_href_dec);
+        chk "etag_enc" (etag_enc_agrees (print_hi_of tabs.t_print_hi) tabs.t_etag_enc);
+        chk "etag_dec" (etag_dec_agrees tabs.t_std tabs.t_etag_dec);
+        chk "time_enc" (time_enc_agrees tabs.t_time_enc); chk "time_dec" (time_dec_agrees tabs.t_time_dec)
+      end
+    end;
+    tables_ok := !tables_ok && ok;
+    cd
   | _ -> raise (Parse_error "tab")
 
 (* ---- observations *)
@@ -128,7 +156,6 @@ let wdoc_of = function
 
 
 (* ---- diagnostics (C10_DEBUG=1): where model and observation part *)
-let debug = try Sys.getenv "C10_DEBUG" <> "" with Not_found -> false
 let trunc s = if String.length s > 60 then String.sub s 0 60 ^ "..." else s
 let rec show_tree = function
   | Text s -> Printf.sprintf "%S" (trunc (string_of_chars s))
@@ -156,8 +183,14 @@ let dbg_body ln mt ot tbl =
     Printf.printf "DEBUG %d table\n  model %s\n  obs   %s\n" ln (show_table (rfc4918_read_multistatus mt)) (show_table tbl)
   end
 
+(* ---- how many cases lie in the domains on which C16 proves the round trips
+   (the premises of the ..._modelled_codecs theorems; informational) *)
+let dom kind b = bump (Printf.sprintf "c16_domain_%s_%s" kind (if b then "inside" else "outside"))
+
 (* ---- driver *)
 let finish kind (v : verdict) detail =
+  let v = with_tables !tables_ok v in
+  let detail = if !tables_ok then detail else detail ^ " (codec values differ from C16's models)" in
   bump ("kind_" ^ kind);
   if not v.applies then bump ("outside_premises_" ^ kind);
   if v.finding then bump "finding_foreign_namesake";
@@ -174,6 +207,7 @@ let bump_res kind = function
 
 let () =
   run_file Sys.argv.(1) (fun ln sx ->
+    tables_ok := true;
     match sx with
     | [L (A kind :: fl :: rest); L obs] ->
       let fl = flavor_of fl in
@@ -184,6 +218,7 @@ let () =
          let cd = codecs_of tab and os = List.map obj_of objs in
          if os <> [] then note_nontrivial (show (List.hd sx));
          bump_res "query" res;
+         dom "query" (List.for_all (obj_dom cd.pay_enc cd.pay_dec fl) os);
          finish kind (check_query cd fl (str principal) os (tree_of tree) (table_of tbl) (cres_of (List.map view_of) res)) "query"
        | "multiget", [principal; L hrefs; L outs; tab], [tree; tbl; res; L calls] ->
          let cd = codecs_of tab in
@@ -191,6 +226,7 @@ let () =
          let backend h = match List.assoc_opt h assoc with Some o -> o | None -> Failed (Some (z_of_int 404), chars_of_string "404 Not Found: not in the double", None) in
          if List.length hrefs >= 2 then note_nontrivial (show (List.hd sx));
          bump_res "multiget" res;
+         dom "multiget" (List.for_all (fun h -> outcome_dom cd.pay_enc cd.pay_dec fl h (backend h)) (List.map str hrefs));
          bump (Printf.sprintf "multiget_hrefs_%d" (min 9 (List.length hrefs)));
          let v = check_multiget cd fl (str principal) backend (List.map str hrefs) (tree_of tree) (table_of tbl)
                         (cres_of (List.map view_of) res) (List.map str calls) in
@@ -203,6 +239,7 @@ let () =
          let cd = codecs_of tab and cs = List.map coll_of colls in
          if cs <> [] then note_nontrivial (show (List.hd sx));
          bump_res "find" res;
+         dom "find" (List.for_all coll_dom cs && Model_c10.href_in_domain (str home));
          finish kind (check_find cd fl (str principal) (str home) cs (tree_of tree) (table_of tbl) (cres_of (List.map coll_view_of) res)) "find"
        | "propfind", [principal; L req; coll; L objs; tab], [tree; tbl] ->
          let cd = codecs_of tab in
@@ -218,6 +255,7 @@ let () =
          note_nontrivial (show (List.hd sx));
          bump_res "get" (match res with L [A "ok"; _] -> L [A "ok"; A "x"] | r -> r);
          let r = cres_of (function [v] -> view_of v | _ -> raise (Parse_error "get result")) res in
+         (match outcome_of out with Found o -> dom "get" (obj_dom cd.pay_enc cd.pay_dec fl o) | _ -> ());
          let v = check_get cd hd fl (str reqpath) (outcome_of out) r in
          if debug && not (v.agree && v.spec) then Printf.printf "DEBUG %d get model %s obs %s\n" ln (show_cres show_view (e2e_get cd hd fl (str reqpath) (outcome_of out))) (show_cres show_view r);
          finish kind v "get"
@@ -225,6 +263,9 @@ let () =
          let cd = codecs_of tab and hd = codecs_of htab in
          note_nontrivial (show (List.hd sx));
          bump_res "put" (match res with L [A "ok"; _] -> L [A "ok"; A "x"] | r -> r);
+         (match outcome_of ret with
+          | Found o -> dom "put" (pay_rt cd.pay_enc cd.pay_dec fl (str data) && loc_dom o && meta_dom o)
+          | _ -> ());
          finish kind (check_put cd hd fl (str reqpath) (str data) (outcome_of ret)
                         (cres_of (function [v] -> view_of v | _ -> raise (Parse_error "put result")) res)
                         (match recv with A "n" -> None | L [p; d] -> Some (str p, str d) | _ -> raise (Parse_error "received"))) "put"
